@@ -60,6 +60,14 @@ inductive Err where
   | overflow    -- OverflowError
 deriving DecidableEq, Repr, Inhabited
 
+/-- equality of results is decidable (used by the `decide` witnesses) -/
+instance exceptDecEq {ε α : Type} [DecidableEq ε] [DecidableEq α] : DecidableEq (Except ε α) := fun a b =>
+  match a, b with
+  | .ok x, .ok y => if h : x = y then isTrue (h ▸ rfl) else isFalse (fun e => h (Except.ok.inj e))
+  | .error x, .error y => if h : x = y then isTrue (h ▸ rfl) else isFalse (fun e => h (Except.error.inj e))
+  | .ok _, .error _ => isFalse (fun e => nomatch e)
+  | .error _, .ok _ => isFalse (fun e => nomatch e)
+
 /-- exact value of a base-type value -/
 def BVal.toX : BVal → XNum
   | .i n => .fin (n : Rat)
